@@ -892,8 +892,18 @@ class DocTest:
                             # A failure may be expected if the traceback
                             # matches the part's want statement.
                             exception = sys.exc_info()
-                            traceback.format_exception_only(*exception[:2])
-                            exc_got = traceback.format_exception_only(*exception[:2])[-1]
+                            exc_lines = traceback.format_exception_only(*exception[:2])
+                            if issubclass(exception[0], SyntaxError):
+                                # Only the message (and notes) matter, not
+                                # the source context lines before it.
+                                prefix = exception[0].__qualname__ + ':'
+                                for idx, exc_line in enumerate(exc_lines):
+                                    if exc_line.startswith(prefix) or exc_line.rstrip() == prefix[:-1]:
+                                        exc_lines = exc_lines[idx:]
+                                        break
+                            # The message line followed by the lines of any
+                            # notes attached to the exception (PEP 678)
+                            exc_got = ''.join(exc_lines)
                             want = part.want
                             checker.check_exception(exc_got, want, runstate)
                         else:
